@@ -40,6 +40,13 @@ let () =
            (match decode_file_info lbz_policy file with
             | Ok (o, ps) -> Printf.printf "%s %s\n" (show_out o) (String.concat "," (List.map (fun p -> string_of_int (int_of_nat p)) ps))
             | Err e -> print_endline ("ERR " ^ err_name e))
+         | "inspect" ->
+           (match inspect_file file with
+            | Ok l -> print_endline ("OK " ^ String.concat ";" (List.map (fun b ->
+                Printf.sprintf "level=%d,rand=%b,idx=%d,size=%d,nt=%d,nsel=%d,crc=%b,tables=%s" (int_of_n b.bi_level) b.bi_rand
+                  (int_of_n b.bi_idx) (int_of_n b.bi_size) (int_of_n b.bi_ntrees) (int_of_n b.bi_nsel) b.bi_crc_ok
+                  (String.concat "|" (List.map (fun t -> String.concat "." (List.map (fun x -> string_of_int (int_of_n x)) t)) b.bi_tables))) l))
+            | Err e -> print_endline ("ERR " ^ err_name e))
          | "tabs" -> Printf.printf "prefix_consistent=%b sel_table_ok=%b\n" tables_prefix_consistent sel_table_ok
          | _ -> print_endline "BADMODE")
       | _ -> print_endline "BADLINE"
